@@ -28,8 +28,10 @@ HERE = os.path.dirname(os.path.dirname(os.path.realpath(__file__)))
 REPO = os.environ.get("ZIP_VERIF_REPO", "/repo")
 HARNESS_DIR = os.environ.get("ZIP_VERIF_HARNESS_SRC") or os.path.join(HERE, "harness")
 WORK = os.path.join(HERE, ".work")
-EVID = os.path.join(HERE, "evidence")
-REPLAYS = os.path.join(HERE, "replays")
+OUT = os.environ.get("ZIP_VERIF_OUT") or os.path.join(WORK, "out")
+# developer overrides (seeded-change matrix): the registered commands never set these
+EVID = os.environ.get("ZIP_VERIF_EVID") or os.path.join(HERE, "evidence")
+REPLAYS = os.environ.get("ZIP_VERIF_REPLAYS") or os.path.join(HERE, "replays")
 KNOWN = os.path.join(HERE, "known_findings.json")
 
 FEATURES = {
@@ -52,7 +54,8 @@ MODPATH = {
     "h_compression.rs": "compression::verif_h",
 }
 
-TIER_RANK = {"quick": 0, "thorough": 1}
+# "dev": harnesses under development (not yet discharged within the caps); never selected by a registered command
+TIER_RANK = {"quick": 0, "thorough": 1, "dev": 9}
 
 
 # --------------------------------------------------------------------------------------------
@@ -108,6 +111,7 @@ def parse_registry():
                             "timeout": int(ann.get("t", "300")),
                             "mem": int(ann.get("mem", "6")),
                             "cbmc": ann.get("cbmc", ""),
+                            "uws": ann.get("uws", ""),
                             "unwind": unwind,
                             "desc": " ".join(doc).strip() + ("" if len(feats) == 1 else f" [features: {feat}]"),
                             "line": i + 1,
@@ -191,7 +195,7 @@ def base_env(harness_dir=HARNESS_DIR):
     return env
 
 
-def kani_cmd(h, target_dir, json_out, playback=False):
+def kani_cmd(h, target_dir, json_out, playback=False, unwindset=""):
     cmd = ["cargo", "kani", "--manifest-path", os.path.join(REPO, "Cargo.toml")]
     cmd += FEATURES[h["feat"]]
     cmd += ["--target-dir", target_dir, "-Z", "stubbing", "-Z", "unstable-options"]
@@ -209,8 +213,52 @@ def kani_cmd(h, target_dir, json_out, playback=False):
         cbmc = ["--max-field-sensitivity-array-size", "4096"]
     if h["cbmc"]:
         cbmc += h["cbmc"].split()
+    if unwindset:
+        cbmc += ["--unwindset", unwindset]
     cmd += ["--cbmc-args"] + cbmc
     return cmd
+
+
+def resolve_unwindset(h, tdir, log_path):
+    """Per-loop unwinding bounds (annotation uws="<regex>:<n>;<regex>:<n>"): the loop identifiers are
+    looked up in the goto binary compiled from the CURRENT tree (codegen-only pass + goto-instrument
+    --show-loops), so a bound follows its loop through renames of mangled hashes. A pattern that
+    matches no loop is dropped; soundness is kept by the unwinding assertions of the main run."""
+    if not h.get("uws"):
+        return ""
+    cmd = ["cargo", "kani", "--manifest-path", os.path.join(REPO, "Cargo.toml")] + FEATURES[h["feat"]]
+    cmd += ["--target-dir", tdir, "-Z", "stubbing", "-Z", "unstable-options", "--no-assertion-reach-checks"]
+    cmd += ["--exact", "--harness", h["path"], "--only-codegen"]
+    run_proc(cmd, base_env(), log_path + ".codegen", 900, 16)
+    suffix = f"{len(h['path'].split('::')[-1])}{h['path'].split('::')[-1]}.out"
+    cands = []
+    for root, _, files in os.walk(os.path.join(tdir, "kani")):
+        for fn in files:
+            if fn.endswith(suffix) and not fn.endswith(".symtab.out"):
+                cands.append(os.path.join(root, fn))
+    if not cands:
+        return ""
+    cands.sort(key=os.path.getmtime)
+    p = subprocess.run(["goto-instrument", "--show-loops", cands[-1]], stdout=subprocess.PIPE, stderr=subprocess.DEVNULL, text=True)
+    loops = re.findall(r"^Loop (\S+):", p.stdout, re.M)
+    funcs = None
+    out = []
+    for spec in h["uws"].split(";"):
+        rx, _, n = spec.rpartition(":")
+        if rx.startswith("fn:"):
+            # recursion bound: match the pretty function name, bound the mangled identifier
+            if funcs is None:
+                q = subprocess.run(["goto-instrument", "--list-goto-functions", cands[-1]], stdout=subprocess.PIPE, stderr=subprocess.DEVNULL, text=True)
+                funcs = re.findall(r"^(\S.*?) /\* (\S+?),? ?(?:body not available)? ?\*/$", q.stdout, re.M)
+            for pretty, mangled in funcs:
+                if re.search(rx[3:], pretty):
+                    out.append(f"{mangled}:{n}")
+            continue
+        for lp in loops:
+            if re.search(rx, lp):
+                out.append(f"{lp}:{n}")
+    return ",".join(out)
+
 
 
 def _limit(mem_gb):
@@ -395,15 +443,19 @@ def run_harness(h, pool, tier):
     try:
         tdir = os.path.join(WORK, f"slot{slot}")
         os.makedirs(tdir, exist_ok=True)
-        out_dir = os.path.join(WORK, "out")
+        out_dir = OUT
         os.makedirs(out_dir, exist_ok=True)
         json_out = os.path.join(out_dir, h["name"] + ".json")
         log_path = os.path.join(out_dir, h["name"] + ".log")
         if os.path.exists(json_out):
             os.remove(json_out)
-        cmd = kani_cmd(h, tdir, json_out)
+        uws = resolve_unwindset(h, tdir, log_path)
+        cmd = kani_cmd(h, tdir, json_out, unwindset=uws)
         rc, to, wall = run_proc(cmd, base_env(), log_path, h["timeout"], h["mem"])
-        return classify(h, rc, to, wall, json_out, log_path)
+        res = classify(h, rc, to, wall, json_out, log_path)
+        if uws:
+            res["unwindset"] = uws
+        return res
     finally:
         pool.put(slot)
 
@@ -436,38 +488,45 @@ def match_known(known, prop, hname, fc):
 # Replay (concrete playback of the solver's counterexample against the real code)
 # --------------------------------------------------------------------------------------------
 def extract_playback_tests(log):
+    """(harness, body, is_cover) for every generated playback test; tests for failed checks first
+    (Kani also prints one test per satisfied cover!, which is a witness, not a counterexample)."""
     tests = []
     for m in re.finditer(r"Concrete playback unit test for `([^`]+)`:\s*```\n(.*?)```", log, re.S):
-        tests.append((m.group(1), m.group(2)))
+        body = m.group(2)
+        cm = re.search(r"/// Check for `([^`]*)`", body)
+        tests.append((m.group(1), body, bool(cm and cm.group(1) == "cover")))
+    tests.sort(key=lambda t: t[2])
     return tests
 
 
 def make_replay(prop, h, pool):
-    """Re-run the failing harness with concrete playback; returns (replay_path | None, note)."""
+    """Re-run the failing harness with concrete playback; returns ([replay paths], note)."""
     slot = pool.get()
     try:
         tdir = os.path.join(WORK, f"slot{slot}")
-        out_dir = os.path.join(WORK, "out")
+        out_dir = OUT
         log_path = os.path.join(out_dir, h["name"] + ".playback.log")
-        cmd = kani_cmd(h, tdir, None, playback=True)
+        cmd = kani_cmd(h, tdir, None, playback=True, unwindset=resolve_unwindset(h, tdir, log_path))
         run_proc(cmd, base_env(), log_path, max(3 * h["timeout"], 900), max(3 * h["mem"], 24))
         log = open(log_path, errors="replace").read()
     finally:
         pool.put(slot)
-    tests = extract_playback_tests(log)
+    tests = [t for t in extract_playback_tests(log) if not t[2]]
     if not tests:
-        return None, "no concrete playback test produced (see %s)" % log_path
+        return [], "no concrete playback test for a failed check produced (see %s)" % log_path
     os.makedirs(REPLAYS, exist_ok=True)
-    hpath, body = tests[0]
-    digest = hashlib.sha1(body.encode()).hexdigest()[:10]
-    path = os.path.join(REPLAYS, f"{prop}_{h['name']}_{digest}.rs")
-    tname = re.search(r"fn (kani_concrete_playback_\w+)", body).group(1)
-    with open(path, "w") as f:
-        f.write(f"// REPLAY property={prop} harness={h['name']} file={h['file']} feat={h['feat']} test={tname}\n")
-        f.write("// Counterexample chosen by the solver (CBMC via Kani) for the harness above; re-executed\n")
-        f.write("// against the real code with: ./check --replay <this file>\n")
-        f.write(body)
-    return path, f"{len(tests)} counterexample(s)"
+    paths = []
+    for hpath, body, _ in tests[:4]:
+        digest = hashlib.sha1(body.encode()).hexdigest()[:10]
+        path = os.path.join(REPLAYS, f"{prop}_{h['name']}_{digest}.rs")
+        tname = re.search(r"fn (kani_concrete_playback_\w+)", body).group(1)
+        with open(path, "w") as f:
+            f.write(f"// REPLAY property={prop} harness={h['name']} file={h['file']} feat={h['feat']} test={tname}\n")
+            f.write("// Counterexample chosen by the solver (CBMC via Kani) for the harness above; re-executed\n")
+            f.write("// against the real code with: ./check --replay <this file>\n")
+            f.write(body)
+        paths.append(path)
+    return paths, f"{len(tests)} counterexample(s)"
 
 
 def run_replay(path, quiet=False):
@@ -554,7 +613,7 @@ def functions_encoded(results):
     """zip:: functions the solver actually reached, harvested from the check list of each run."""
     fns = set()
     for r in results.values():
-        jp = os.path.join(WORK, "out", r["name"] + ".json")
+        jp = os.path.join(OUT, r["name"] + ".json")
         try:
             data = json.load(open(jp))
         except Exception:  # noqa
@@ -579,7 +638,7 @@ def check_property(prop, tier, only=None, jobs=12):
     reg = parse_registry()
     sel = [h for h in reg if prop in h["props"] and TIER_RANK[h["tier"]] <= TIER_RANK[tier]]
     if only:
-        sel = [h for h in sel if only in h["name"]]
+        sel = [h for h in sel if any((o[:-1] == h["name"]) if o.endswith("$") else (o in h["name"]) for o in only.split(","))]
     if not sel:
         print(f"no harness registered for {prop} at tier {tier}")
         return 2
@@ -616,15 +675,26 @@ def check_property(prop, tier, only=None, jobs=12):
     confirmed = []
     for name, fcs in violations:
         h = byname[name]
-        path, note = make_replay(prop, h, pool)
-        if path is None:
+        paths, note = make_replay(prop, h, pool)
+        if not paths:
             inconclusive.append((name, "counterexample found but no playback test: " + note + "; failed: " + fcs[0]["description"]))
             continue
-        reproduced, not_run, tail = run_replay(path, quiet=True)
-        if reproduced:
-            confirmed.append((name, fcs, path, tail))
+        hit = None
+        for path in paths:
+            reproduced, not_run, tail = run_replay(path, quiet=True)
+            if reproduced:
+                hit = (path, tail)
+                break
+        for path in paths:
+            if not hit or path != hit[0]:
+                try:
+                    os.remove(path)
+                except OSError:
+                    pass
+        if hit:
+            confirmed.append((name, fcs, hit[0], hit[1]))
         else:
-            inconclusive.append((name, f"counterexample did not reproduce concretely ({path}); failed check: {fcs[0]['description']}"))
+            inconclusive.append((name, f"counterexample did not reproduce concretely ({len(paths)} playback test(s) tried); failed check: {fcs[0]['description']}"))
     for name, fcs, path, tail in confirmed:
         out_lines.append(f"VIOLATION property={prop} replay={path}")
         for fc in fcs[:5]:
@@ -661,6 +731,7 @@ def write_evidence(prop, tier, seed, sel, results, confirmed, known_hits, inconc
                 "instantiation_features": " ".join(FEATURES[h["feat"]]),
                 "unwind": h["unwind"],
                 "cbmc_args": ("" if "--max-field-sensitivity-array-size" in h["cbmc"] else "--max-field-sensitivity-array-size 4096 ") + h["cbmc"],
+                "unwindset": r.get("unwindset", ""),
                 "verdict": r.get("verdict"),
                 "reason": r.get("reason", ""),
                 "checks_decided": r.get("checks_passed", 0) + len(r.get("failed_checks", [])),
@@ -732,33 +803,34 @@ except Exception:  # noqa
 
 
 def warm(jobs):
-    """setup: build dependencies once per slot so later runs only recompile the crate."""
+    """setup: compile the dependencies once per target-dir slot and feature set (codegen only, no
+    solving), so that later runs only recompile the zip crate itself."""
     generate_tables()
     reg = parse_registry()
     first = {}
-    for h in reg:
+    for h in sorted(reg, key=lambda h: h["timeout"]):
         first.setdefault(h["feat"], h)
     ok = True
+    os.makedirs(OUT, exist_ok=True)
     for feat, h in first.items():
-        hh = dict(h)
-        hh["timeout"] = 1800
-        pool = SlotPool(jobs)
-        ths = []
-        res = []
-
-        def w():
-            res.append(run_harness(hh, pool, "quick"))
-
-        for _ in range(jobs):
-            t = threading.Thread(target=w)
-            t.start()
-            ths.append(t)
-        for t in ths:
-            t.join()
-        for r in res:
-            if r["verdict"] == "inconclusive" and r.get("build_error"):
+        procs = []
+        for s in range(SlotPool.NSLOTS):
+            tdir = os.path.join(WORK, f"slot{s}")
+            os.makedirs(tdir, exist_ok=True)
+            cmd = kani_cmd(h, tdir, os.path.join(OUT, f"warm_{feat}_{s}.json"))
+            i = cmd.index("--cbmc-args")
+            cmd = cmd[:i] + ["--only-codegen"]
+            j = cmd.index("--export-json")
+            del cmd[j:j + 2]
+            lf = open(os.path.join(OUT, f"warm_{feat}_{s}.log"), "w")
+            procs.append((s, subprocess.Popen(cmd, cwd=REPO, env=base_env(), stdout=lf, stderr=subprocess.STDOUT), lf))
+        for s, p, lf in procs:
+            rc = p.wait()
+            lf.close()
+            if rc != 0:
                 ok = False
-                print("setup: build error, see", r["log"])
+                print(f"setup: codegen failed for feature set {feat} in slot {s}, see {lf.name}")
+    print("setup:", "ok" if ok else "FAILED")
     return 0 if ok else 1
 
 
@@ -773,6 +845,9 @@ def main():
     ap.add_argument("--setup", action="store_true")
     ap.add_argument("--build", action="store_true", help="developer aid: compile all harnesses (codegen only) for every feature set")
     ap.add_argument("--sweep", action="store_true", help="developer aid: run every selected harness once, print a table (no evidence)")
+    ap.add_argument("--tcap", type=int, help="sweep: cap every harness timeout at this many seconds")
+    ap.add_argument("--memcap", type=int, help="sweep: override every harness memory cap (GB)")
+    ap.add_argument("--skip-file", help="sweep: file with harness names (first word per line) to skip")
     a = ap.parse_args()
     os.makedirs(WORK, exist_ok=True)
     if a.list:
@@ -807,12 +882,20 @@ def main():
             sel = [h for h in sel if any(o in h["name"] for o in a.only.split(","))]
         if a.prop:
             sel = [h for h in sel if a.prop in h["props"]]
+        if a.skip_file:
+            skip = set(l.split()[0] for l in open(a.skip_file) if l.strip())
+            sel = [h for h in sel if h["name"] not in skip]
+        for h in sel:
+            if a.tcap:
+                h["timeout"] = min(h["timeout"], a.tcap)
+            if a.memcap:
+                h["mem"] = a.memcap
         sel.sort(key=lambda h: -h["timeout"])
         results, _ = schedule(sel, a.jobs, a.tier)
         for n, r in sorted(results.items()):
             print(f"{r['verdict']:>12} {n} wall={r.get('wall_s')} rss={r.get('peak_rss_mb')} {r.get('reason','')} "
                   + "; ".join(fc['description'][:90] for fc in r.get('failed_checks', [])[:3]))
-        json.dump(results, open(os.path.join(WORK, "sweep.json"), "w"), indent=1)
+        json.dump(results, open(os.path.join(WORK, f"sweep_{int(time.time())}.json"), "w"), indent=1)
         return 0
     if a.replay:
         generate_tables()
